@@ -1,6 +1,7 @@
 package checks
 
 import (
+	"os"
 	"time"
 
 	"github.com/magisterquis/curlrevshell/verifx/bworld"
@@ -105,6 +106,12 @@ func c04(r *ev.Result, tier string) {
 	exploreProfiles(r, budget, c04Profiles(isQuick(tier))...)
 	/* The HTTP seam: the same clauses through the real handlers over TLS. */
 	c04HTTP(r)
+	/* The real binary under every boolean flag: three shells in a row. */
+	{
+		base := ev.Scratch("c04-")
+		c04RealBinary(r, base)
+		os.RemoveAll(base)
+	}
 	if !isQuick(tier) {
 		brokerRacePass(r)
 	}
